@@ -68,10 +68,10 @@ func c16Prologue(w *world.W, state string, backdate time.Duration) {
 	switch state {
 	case "empty":
 	case "fresh":
-		answer(w, mk("max-age=100000"))
+		answer(w, mk(`max-age="100000", no-cache="X-Nothing"`)) // quoted-string arguments: parsed on every lookup, by every caller
 		w.Do(world.Req("GET", U, "X-A", "1"))
 	case "stale+swr":
-		answer(w, mk("max-age=5, stale-while-revalidate=100000, stale-if-error=100000"))
+		answer(w, mk(`max-age="5", stale-while-revalidate="100000", stale-if-error=100000`))
 		w.Do(world.Req("GET", U, "X-A", "1"))
 	case "stale+swr bodiless":
 		r := mk("max-age=5, stale-while-revalidate=100000")
